@@ -115,6 +115,9 @@ def _np_intermediate(case, plaintext):
     if words is not None:
         v = v[..., words] if not isinstance(words, int) else v[..., words]
     m = case['model']
+    if case.get('wide'):
+        mul, add = case['wide']
+        return v.astype('int32') * int(mul) + int(add)      # Value model on a selection function with a wide / signed integer range
     if m == 'value':
         return v.astype('uint8')
     if m == 'hw':
@@ -148,18 +151,21 @@ def _model(case):
 def _make_analysis(case, log):
     mask = case['mask']
     words = case['words']
+    wide = case.get('wide')
     kw = {'precision': case.get('mia_precision') or case['precision']}
     if case['mode'] == 'attack':
         @scared.attack_selection_function(guesses=np.array(case['guesses'], dtype='uint8'), words=words)
         def sf(plaintext, guesses):
-            return ((plaintext[:, None, :] ^ guesses[None, :, None]) & mask).astype('uint8')
+            v = ((plaintext[:, None, :] ^ guesses[None, :, None]) & mask).astype('uint8')
+            return v if wide is None else v.astype('int32') * int(wide[0]) + int(wide[1])
         kw['discriminant'] = getattr(scared, case['discriminant'])
         if case.get('convergence_step'):
             kw['convergence_step'] = int(case['convergence_step'])
     else:
         @scared.reverse_selection_function(words=words)
         def sf(plaintext):
-            return (plaintext & mask).astype('uint8')
+            v = (plaintext & mask).astype('uint8')
+            return v if wide is None else v.astype('int32') * int(wide[0]) + int(wide[1])
     a = case['analysis']
     cls = getattr(scared, {'cpa': 'CPA', 'dpa': 'DPA', 'anova': 'ANOVA', 'nicv': 'NICV', 'snr': 'SNR', 'mia': 'MIA'}[a] + ('Attack' if case['mode'] == 'attack' else 'Reverse'))
 
@@ -269,6 +275,8 @@ def _check(ctx, case):
         labels.append('short_tail_batch')
     if case.get('convergence_step'):
         labels.append('with_convergence_step')
+    if case.get('wide'):
+        labels.append('wide_or_signed_intermediate_values')
     if any(r['samples'].shape[0] == 1 for r in case['runs']):
         labels.append('single_trace_run')
     nontrivial = multi_batch and (tail_short or case['frame'] is not None or len(chain) > 0)
@@ -352,7 +360,7 @@ def cases(draw, analysis, precision, large=False):
         frame = slice(a_, draw(st.integers(a_ + 2, L)), draw(st.sampled_from([None, 1, 2])))
     elif fk == 'range':
         a_ = draw(st.integers(0, L - 2))
-        frame = range(a_, draw(st.integers(a_ + 2, L)))
+        frame = range(a_, draw(st.integers(a_ + 2, L)), draw(st.sampled_from([1, 2, 3])))
     else:
         m = draw(st.integers(2, min(L + 2, 8)))
         idx = [int(v) for v in g.integers(0, L, size=m)]          # unsorted, may repeat
@@ -425,8 +433,11 @@ def cases(draw, analysis, precision, large=False):
     words = None if wk == 'all' else slice(1, 3) if wk == 'slice' else [3, 0]
     if large:
         mask = 0x01 if analysis not in ('cpa', 'dpa') else mask
+    wide = None
+    if analysis == 'cpa' and model == 'value' and precision == 'float64' and draw(st.booleans()):
+        wide = draw(st.sampled_from([[1, -4], [1, -200], [70000, 0], [300, 65000], [-1, 0]]))     # signed values, values beyond 16 bits
     case = {'kind': 'run', 'analysis': analysis, 'mode': mode, 'precision': precision, 'frame': frame, 'frame_kind': fk, 'chain': chain, 'batch': batch,
-            'decoys': draw(st.lists(st.sampled_from(['data', 'key', 'ciphertext', 'foo']), max_size=2, unique=True)),
+            'wide': wide, 'decoys': draw(st.lists(st.sampled_from(['data', 'key', 'ciphertext', 'foo']), max_size=2, unique=True)),
             'runs': runs, 'model': model, 'mask': mask, 'words': words, 'partitions': None, 'edges': None}
     if mode == 'attack':
         ng = draw(st.integers(2, 5))
